@@ -449,6 +449,23 @@ LITERAL_SCRIPTS = collections.OrderedDict([
 ])
 
 
+def _as_quoted_lexemes(lx, lit):
+    """the literal is one lexeme, or a run of adjacent quoted lexemes that spell it (a doubled quote ends one string token and
+    starts the next; the grammar joins them again)"""
+    q = lit[0]
+    for i in range(len(lx)):
+        acc = ""
+        for j in range(i, len(lx)):
+            if not (lx[j].startswith(q) and lx[j].endswith(q) and len(lx[j]) >= 2):
+                break
+            acc += lx[j]
+            if acc == lit:
+                return True
+            if not lit.startswith(acc):
+                break
+    return False
+
+
 def check_literals(ck, ctx, rule="O-literal"):
     """the characters of a quoted literal reach the grammar exactly as written: the script is formed into lines and run through the
     line machine (both evaluated abstractly); the one statement handed over must contain the literal verbatim"""
@@ -468,7 +485,7 @@ def check_literals(ck, ctx, rule="O-literal"):
             raise AnalysisError(f"O-literal: the reference script ({sname}) does not reach the grammar as one statement")
         ref[sname] = tuple(lexemes(ctx.lexer, part) for part in around(h[0], "'"))
     for lname, lits in LITERALS.items():
-        fails, rest_fails = [], []
+        fails, rest_fails, lex_fails = [], [], []
         for sname, tmpl in LITERAL_SCRIPTS.items():
             n += 1
             texts = [tmpl.replace("{L}", l) for l in lits]
@@ -483,6 +500,11 @@ def check_literals(ck, ctx, rule="O-literal"):
                     raise AnalysisError(f"O-literal {lname} ({sname}): {e}")
                 if len(handed) != 1 or not isinstance(handed[0], str) or lit not in handed[0]:
                     fails.append((sname, text, f"{lit} reaches the grammar as {handed!r}"))
+                elif not _as_quoted_lexemes(lexemes(ctx.lexer, handed[0]), lit):
+                    lx = lexemes(ctx.lexer, handed[0])
+                    k = next((j for j, x in enumerate(lx) if x and x[0] == lit[0]), 0)
+                    if not lex_fails or lex_fails[-1][0] != sname:
+                        lex_fails.append((sname, text, f"{lit} is scanned as {' | '.join(lx[k:k + 4])!r}"))
                 if len(handed) == 1 and isinstance(handed[0], str):
                     got = tuple(lexemes(ctx.lexer, part) for part in around(handed[0], lit[0]))
                     if got != ref[sname]:
@@ -497,9 +519,41 @@ def check_literals(ck, ctx, rule="O-literal"):
               "the literal must reach the grammar verbatim, inside one statement" +
               ("" if ok else f"; in {len(fails)} of {len(LITERAL_SCRIPTS)} positions ({', '.join(f[0] for f in fails)}): {fails[0][2]}"),
               "Parser.pre_process_data / parse_data / process_line (evaluated abstractly)", witness=None if ok else repr(fails[0][1])[:160])
+        ok = not lex_fails
+        ck.ob(rule + ".lexeme", title, ok,
+              "a literal that reaches the grammar verbatim must be taken whole by one lexer rule (one token)" +
+              ("" if ok else f"; in {len(lex_fails)} of {len(LITERAL_SCRIPTS)} positions: {lex_fails[0][2]}"),
+              "lexer rules (regexes in PLY's order) applied to the statement text", witness=None if ok else repr(lex_fails[0][1])[:160])
         ok = not rest_fails
         ck.ob(rule + ".rest", title, ok,
               "the statement around the literal must be scanned into the same lexemes as around a one-word literal" +
               ("" if ok else f"; in {len(rest_fails)} of {len(LITERAL_SCRIPTS)} positions ({', '.join(f[0] for f in rest_fails)}): {rest_fails[0][2]}"),
               "Parser.pre_process_data / parse_data / process_line (evaluated abstractly)", witness=None if ok else repr(rest_fails[0][1])[:160])
     ck.count("literal_instances", n)
+
+
+def check_reset_before_parse(ck, ctx, key, why, rule="T-DOM"):
+    """semantic form of `the flag reset dominates the parse`: process_line is evaluated abstractly, with every lexer flag left dirty,
+    on every line class in every reachable state of the line machine (also as last line of the script); whenever a statement is
+    handed to the grammar the lexer flags must be the reset vector - however the reset and the parse call are arranged in the code"""
+    lm = LineMachine(ctx)
+    states = reachable_states(lm)
+    n, bad = 0, None
+    for s, path in states:
+        shape = stmt_class(s["statement"])
+        for cname in ALLOWED[shape]:
+            for more in (True, False):
+                try:
+                    snaps, start = lm.lexer_flags_at_parse(s, CODE[cname], more)
+                except (PyRaise, Raised) as e:
+                    raise AnalysisError(f"{rule}: the line machine raises on `{cname}`: {e}")
+                for sn in snaps:
+                    n += 1
+                    wrong = {k: sn.get(k) for k in start if not same(sn.get(k), start[k])}
+                    if wrong and bad is None:
+                        bad = (f"when the statement assembled after {' / '.join(path[-3:] + [cname])} is handed to the grammar, the lexer flags "
+                               f"{sorted(wrong)} still hold what the previous statement left")
+    if n < 10:
+        raise AnalysisError(f"{rule}: only {n} statements were handed to the grammar by the explored lines (anchor vanished?)")
+    ck.ob(rule, key, bad is None, why + ("" if bad is None else "; " + bad), "Parser.process_line (evaluated abstractly, reset not intercepted)")
+    ck.count("parse_calls_checked_for_reset", n)
